@@ -172,7 +172,7 @@ def check_state(a, ctx, full=True):
             ctx.violation("clifford_tableau_wrong_state", case, {"via": name, "got": gq.clifford_stab_ptab(ct).labels(), **det}, key="cfs_state")
         elif n <= 5 and ctx.counters.get("clifford_from_stabilizer:calls", 0) % 9 == 0:
             ctx.count("dense_crosscheck")
-            if not np.allclose(dense.projector_of_group(gq.clifford_stab_ptab(ct)), dense.projector_of_group(a), atol=1e-9):
+            if not np.allclose(dense.projector_of_group(gq.clifford_stab_ptab(ct)), dense.projector_of_group(a), atol=1e-9, rtol=0):
                 ctx.violation("clifford_tableau_wrong_state_dense", case, det, key="cfs_state")
 
 
@@ -203,7 +203,7 @@ def check_graph(A, order, ctx):
         ctx.violation("clifford_from_graph_wrong_state", case, {"got": gq.clifford_stab_ptab(ct).labels()}, key="graph_state")
     elif n <= 5:
         ctx.count("dense_crosscheck")
-        if not np.allclose(dense.projector_of_group(gq.clifford_stab_ptab(ct)), dense.ket2dm(dense.graph_state_vec(A)), atol=1e-9):
+        if not np.allclose(dense.projector_of_group(gq.clifford_stab_ptab(ct)), dense.ket2dm(dense.graph_state_vec(A)), atol=1e-9, rtol=0):
             ctx.violation("clifford_from_graph_wrong_state_dense", case, {}, key="graph_state")
     # ---- the tableau handed out is the caller's: it is used as a simulation state (gates act in place), then the same graph
     # (same object, and an equal fresh one) is asked for again - the answer must still be the graph state
